@@ -629,7 +629,95 @@ def generate(repo, out_path):
     return table
 
 
+def accounted(o):
+    """mirror of `Statics.accounted` (Model/Statics.lean)"""
+    if o["role"] == "unknown":
+        return False
+    if o["mutable"] and o["det"]:
+        return o["role"] in ("initOnly", "loggingOnly", "vantageChoice", "verifHook", "readOnlyLiteral")
+    return True
+
+
+# ---- regression snippets: hidden state the table MUST flag (an object with that name that is not accounted for) and
+# harmless declarations it must NOT flag.  Each snippet is spliced into a header of the repository in memory.
+MDS = "routines/multidimensional_scaling.hpp"
+IN_FUNCTION = "    const IndexType n_vectors = end - begin;\n"          # inside compute_distance_matrix (2nd overload)
+AT_NAMESPACE = "template <class RandomAccessIterator, class PairwiseCallback>\nDenseSymmetricMatrix compute_distance_matrix("
+SELFTEST = [
+    # (label, file, anchor, text inserted AFTER (function) / BEFORE (namespace) the anchor, name, must be flagged)
+    ("function-local static cache", MDS, IN_FUNCTION,
+     "    static DenseSymmetricMatrix memo;\n    if (memo.rows() == n_vectors) return memo;\n", "memo", True),
+    ("function-local thread_local cache", MDS, IN_FUNCTION,
+     "    thread_local DenseSymmetricMatrix memo;\n    if (memo.rows() == n_vectors) return memo;\n", "memo", True),
+    ("static thread_local", MDS, IN_FUNCTION,
+     "    static thread_local IndexType last_n = 0;\n    last_n = n_vectors;\n", "last_n", True),
+    ("static inside a lambda", MDS, IN_FUNCTION,
+     "    auto count_call = [&]() { static int calls = 0; return ++calls; };\n    (void)count_call();\n", "calls", True),
+    ("static data member of a class template", MDS, AT_NAMESPACE,
+     "template <class T> struct DistanceMemo\n{\n    static DenseSymmetricMatrix stored;\n    static void keep(const T& m) { stored = m; }\n};\n"
+     "template <class T> DenseSymmetricMatrix DistanceMemo<T>::stored;\n\n", "stored", True),
+    ("inline static data member", MDS, AT_NAMESPACE,
+     "struct CallCounter\n{\n    static inline int count = 0;\n    static void tick() { ++count; }\n};\n\n", "count", True),
+    ("mutable member of a const static", MDS, AT_NAMESPACE,
+     "struct HitCounter\n{\n    mutable int hits;\n};\nstatic const HitCounter hit_counter{0};\n"
+     "inline int count_hit() { return ++hit_counter.hits; }\n\n", "hit_counter", True),
+    ("namespace-scope variable without static", MDS, AT_NAMESPACE,
+     "namespace\n{\nDenseSymmetricMatrix shared_distance_cache;\n}\ninline void keep_distances(const DenseSymmetricMatrix& m) { shared_distance_cache = m; }\n\n",
+     "shared_distance_cache", True),
+    ("inline variable", MDS, AT_NAMESPACE,
+     "inline IndexType last_problem_size = 0;\ninline void note_size(IndexType n) { last_problem_size = n; }\n\n",
+     "last_problem_size", True),
+    ("namespace-scope thread_local", MDS, AT_NAMESPACE,
+     "thread_local IndexType tls_problem_size = 0;\ninline void note_tls(IndexType n) { tls_problem_size = n; }\n\n",
+     "tls_problem_size", True),
+    ("rand() in a deterministic stage", MDS, IN_FUNCTION,
+     "    const IndexType first_row = std::rand() % (n_vectors + 1);\n    (void)first_row;\n", "std::rand state via std::rand", True),
+    ("constants", MDS, AT_NAMESPACE,
+     "static const int distance_passes = 2;\nconstexpr double distance_tolerance = 1e-12;\nstatic const char* const stage_name = \"mds\";\n\n",
+     "distance_passes", False),
+    ("function-local constant", MDS, IN_FUNCTION,
+     "    static const ScalarType half = 0.5;\n    (void)half;\n", "half", False),
+]
+
+
+def selftest(repo):
+    """returns the list of snippets the scanner gets wrong (empty = pass)"""
+    base = os.path.join(repo, "include", "tapkee")
+    wrong = []
+    for label, rel, anchor, text, name, must_flag in SELFTEST:
+        src = open(os.path.join(base, rel)).read()
+        at = src.rfind(anchor)
+        if at < 0:
+            wrong.append("%s: anchor not found in %s (self-test needs updating)" % (label, rel))
+            continue
+        if anchor is IN_FUNCTION:
+            new = src[:at + len(anchor)] + text + src[at + len(anchor):]
+        else:
+            new = src[:at] + text + src[at:]
+        try:
+            table = analyse(repo, {rel: new})
+        except Exception as ex:
+            if must_flag:
+                continue          # failing loudly is also "not silently accepted"
+            wrong.append("%s: scanner raised %r" % (label, ex))
+            continue
+        objs = [o for o in table if o["name"] == name and o["file"] == rel]
+        flagged = any(not accounted(o) for o in objs)
+        if must_flag and not flagged:
+            wrong.append("%s: `%s` NOT flagged (%s)" % (label, name, [(o["role"], o["mutable"], o["det"]) for o in objs]))
+        if not must_flag and (flagged or not objs):
+            wrong.append("%s: `%s` %s" % (label, name, "flagged although harmless" if flagged else "not listed"))
+    return wrong
+
+
 if __name__ == "__main__":
+    if len(sys.argv) > 1 and sys.argv[1] == "--selftest":
+        repo = sys.argv[2] if len(sys.argv) > 2 else os.environ.get("TAPKEE_REPO", "/repo")
+        bad = selftest(repo)
+        for b in bad:
+            print("SELFTEST FAIL:", b)
+        print("translate_statics self-test: %d snippets, %d wrong" % (len(SELFTEST), len(bad)))
+        sys.exit(1 if bad else 0)
     repo = sys.argv[1] if len(sys.argv) > 1 else os.environ.get("TAPKEE_REPO", "/repo")
     here = os.path.dirname(os.path.dirname(os.path.abspath(__file__)))
     out = sys.argv[2] if len(sys.argv) > 2 else os.path.join(here, "lean", "TapkeeVerif", "Gen", "Statics.lean")
